@@ -254,6 +254,11 @@ def build_unit(u, scr, workdir, tier, trace=False, common_replace=()):
                 r.reach_ok += 1
             else:
                 r.reach_bad.append(c)
+        elif c['status'] == 'FAILURE' and ('.unwind.' in c['id'] or
+                                           'unwinding assertion' in c['desc']):
+            # the bound of a bounded unit was too small: undecided, never a
+            # violation
+            r.unknown.append(c)
         elif c['status'] == 'FAILURE':
             r.failed.append(c)
         elif c['status'] != 'SUCCESS':
